@@ -15,24 +15,24 @@ Theorem c11_pending_before_channel : forall l r rest, pending l = r :: rest ->
    take_enabled l = true).
 Proof. exact pending_first. Qed.
 
-Theorem c11_f20_refuted_before_fix :
-  option_map wire (lrun_orig (linit 1 false) f20_loop_history) = Some [PPublish (mkPub Q1 1 2 2)]
-  /\ option_map (fun l => (wire l, pending l)) (lrun (linit 1 false) f20_loop_history) = Some ([PPubRel 1], [pq1 2]).
-Proof. exact f20_loop_witness. Qed.
+Theorem c11_f31_refuted_before_fix :
+  option_map wire (lrun_orig (linit 1 false) f31_loop_history) = Some [PPublish (mkPub Q1 1 2 2)]
+  /\ option_map (fun l => (wire l, pending l)) (lrun (linit 1 false) f31_loop_history) = Some ([PPubRel 1], [pq1 2]).
+Proof. exact f31_loop_witness. Qed.
 
 Theorem c11_no_session : forall l, connected l = false ->
   exists l', lstep l (Reconnect false) = Stepped l' /\ pending l' = [] /\ wire l' = [] /\ connected l' = true.
 Proof. exact reconnect_no_session. Qed.
 
-Theorem c11_f19_witness :
-  k19 f19_history = true /\ k18 2 false f19_history = false /\ contract (init 2 false) f19_history = true
-  /\ clean_after step 2 f19_history = Some [RPublish (mkPub Q1 1 2 2); RPublish (mkPub Q1 2 1 1)].
-Proof. exact f19_witness. Qed.
+Theorem c11_f30_witness :
+  k30 f30_history = true /\ k29 2 false f30_history = false /\ contract (init 2 false) f30_history = true
+  /\ clean_after step 2 f30_history = Some [RPublish (mkPub Q1 1 2 2); RPublish (mkPub Q1 2 1 1)].
+Proof. exact f30_witness. Qed.
 
-Theorem c11_f18_witness :
-  k18 2 false f18_history = true /\ k19 f18_history = false /\ contract (init 2 false) f18_history = true
-  /\ clean_after step 2 f18_history = Some [RPublish (mkPub Q1 1 3 3); RPublish (mkPub Q1 2 2 2)].
-Proof. exact f18_witness. Qed.
+Theorem c11_f29_witness :
+  k29 2 false f29_history = true /\ k30 f29_history = false /\ contract (init 2 false) f29_history = true
+  /\ clean_after step 2 f29_history = Some [RPublish (mkPub Q1 1 3 3); RPublish (mkPub Q1 2 2 2)].
+Proof. exact f29_witness. Qed.
 
 Theorem c11_order_v4 : forall max manual h s L, 1 <= max -> max <= 65535 ->
   Client.Order4.orun (init max manual) [] h = Some (s, L) ->
